@@ -226,8 +226,8 @@ Proof.
   - destruct (Nat.eqb_spec k' a) as [E|E]; cbn; [|reflexivity]. subst a. destruct (Nat.eqb_spec k' k); [congruence|reflexivity].
 Qed.
 
-Definition lkind (l : lcmd) : cmd := match l with LPut k v => Put k v | LIncr k d _ => Incr k d | LDel k => Del k end.
-Definition lkey (l : lcmd) : nat := match l with LPut k _ | LIncr k _ _ | LDel k => k end.
+Definition lkind (l : lcmd) : cmd := match l with LPut k v => Put k v | LIncr k d _ => Incr k d | LDel k => Del k | LPutIf k v w _ => PutIf k v w end.
+Definition lkey (l : lcmd) : nat := match l with LPut k _ | LIncr k _ _ | LDel k | LPutIf k _ _ _ => k end.
 Definition pending (x : txn) : list cmd := match tphase x with PBody p => p | _ => [] end.
 Definition touched (x : txn) (k : nat) : bool := match lookup (tov x) k with Some _ => true | None => memk k (tdel x) end.
 
@@ -250,7 +250,7 @@ Lemma lapply_touched ov dl l ov' dl' k : lapply (ov, dl) l = (ov', dl') ->
   k = lkey l \/ (match lookup ov k with Some _ => true | None => memk k dl end) = true.
 Proof.
   intros E H. destruct (Nat.eq_dec k (lkey l)) as [->|Hne]; [left; reflexivity|right].
-  destruct l as [k0 v|k0 d b|k0]; cbn in E, Hne; injection E as <- <-.
+  destruct l as [k0 v|k0 d b|k0|k0 v w [|]]; cbn in E, Hne; injection E as <- <-.
   - rewrite lookup_put in H. destruct (Nat.eqb_spec k k0); [contradiction|]. rewrite memk_remk in H.
     destruct (lookup ov k); [reflexivity|]. apply andb_true_iff in H as [H _]. exact H.
   - rewrite lookup_put in H. destruct (Nat.eqb_spec k k0); [contradiction|]. rewrite memk_remk in H.
@@ -258,6 +258,9 @@ Proof.
   - rewrite lookup_remove in H. destruct (Nat.eqb_spec k k0); [contradiction|].
     destruct (lookup ov k); [reflexivity|]. destruct (memk k0 dl); [exact H|].
     cbn in H. destruct (Nat.eqb_spec k k0); [contradiction|exact H].
+  - rewrite lookup_put in H. destruct (Nat.eqb_spec k k0); [contradiction|]. rewrite memk_remk in H.
+    destruct (lookup ov k); [reflexivity|]. apply andb_true_iff in H as [H _]. exact H.
+  - exact H.
 Qed.
 
 Lemma tinv_write x l pend ov dl res bud :
@@ -312,7 +315,7 @@ Proof.
       * assert (Hlock : is_write cm = true -> tmode x = Fast \/ heldb (theld x) (lock_key (tmode x) (cmd_key cm)) = true).
         { intro Hw. rewrite Hw in Hneed. destruct (tmode x); [left; reflexivity| |];
             right; cbn in Hneed; apply negb_false_iff in Hneed; exact Hneed. }
-        unfold body_cmd. destruct cm as [k|k v|k d|k|n].
+        unfold body_cmd. destruct cm as [k|k v|k d|k|n|k v want].
         -- destruct (memk k (tdel x)); [|destruct (lookup (tov x) k)]; cbn; rewrite upd_same; cbn; intros [= <-];
              rewrite app_nil_r; eapply tinv_skip; eauto.
         -- destruct (lapply (tov x, tdel x) (LPut k v)) as [ov dl] eqn:El. cbn. rewrite upd_same. cbn. intros [= <-].
@@ -323,6 +326,10 @@ Proof.
         -- destruct (lapply (tov x, tdel x) (LDel k)) as [ov dl] eqn:El. cbn. rewrite upd_same. cbn. intros [= <-].
            eapply (tinv_write x (LDel k)); eauto.
         -- cbn. rewrite upd_same. cbn. intros [= <-]. rewrite app_nil_r. eapply tinv_skip; eauto.
+        -- set (hit := Bool.eqb (match (match lookup (tov x) k with Some _ => Some true | None => if memk k (tdel x) then Some false else None end) with
+                                  | Some b => b | None => isSomeZ (store c k) end) want).
+           destruct (lapply (tov x, tdel x) (LPutIf k v want hit)) as [ov dl] eqn:El. cbn. rewrite upd_same. cbn. intros [= <-].
+           eapply (tinv_write x (LPutIf k v want hit)); eauto.
     + destruct (tdel x) eqn:Hd; cbn; rewrite upd_same; cbn; intros [= <-]; unfold TInv, pending, touched in *; rewrite ?Hph in *; cbn;
         rewrite <- Hd in T1 at 1; repeat split; try assumption; try apply T4.
     + destruct (tov x) eqn:Ho; cbn; rewrite upd_same; cbn; intros [= <-]; unfold TInv, pending, touched in *; rewrite ?Hph in *; cbn;
@@ -360,6 +367,7 @@ Definition direct_store (st : nat -> option Z) (cm : cmd) : nat -> option Z :=
   | Put k v => upd st k (Some v)
   | Incr k d => upd st k (Some (match st k with Some b => b + d | None => d end))
   | Del k => upd st k None
+  | PutIf k v want => if Bool.eqb (isSomeZ (st k)) want then upd st k (Some v) else st
   | _ => st
   end.
 
@@ -478,7 +486,7 @@ Inductive data_action (c : cfg) (i : nat) (c' : cfg) : Prop :=
 | DA_begin x' b rest : store c' = store c -> wlog c' = wlog c -> cur (tasks c i) = None -> items (tasks c i) = Txn b :: rest ->
     cur (tasks c' i) = Some x' -> tov x' = [] -> tdel x' = [] -> texec x' = [] -> tblock x' = b -> data_action c i c'
 | DA_direct cm rest : cur (tasks c i) = None -> cur (tasks c' i) = None -> items (tasks c i) = Direct cm :: rest -> is_write cm = true ->
-    store c' = direct_store (store c) cm -> wlog c' = wlog c ++ [(i, O, WDirect, [match cm with Put k v => LPut k v | Incr k d => LIncr k d (Some (store c k)) | _ => LDel (cmd_key cm) end])] ->
+    store c' = direct_store (store c) cm -> wlog c' = wlog c ++ [(i, O, WDirect, [match cm with Put k v => LPut k v | Incr k d => LIncr k d (Some (store c k)) | PutIf k v w => LPutIf k v w (Bool.eqb (isSomeZ (store c k)) w) | _ => LDel (cmd_key cm) end])] ->
     data_action c i c'
 | DA_write x x' l pend : store c' = store c -> wlog c' = wlog c -> cur (tasks c i) = Some x -> cur (tasks c' i) = Some x' ->
     tphase x = PBody (lkind l :: pend) -> tphase x' = PBody pend ->
@@ -511,7 +519,7 @@ Proof.
       * destruct (lock_free c _).
         -- keep Hcur. cbn. rewrite Hph. split; discriminate.
         -- destruct (match tbudget x with Some n => n | None => attempts c end) as [|[|n]]; keep Hcur; cbn; rewrite Hph; split; discriminate.
-      * unfold body_cmd. destruct cm as [k|k v|k d|k|n].
+      * unfold body_cmd. destruct cm as [k|k v|k d|k|n|k v want].
         -- destruct (memk k (tdel x)); [|destruct (lookup (tov x) k)]; (eapply DA_keep;
              [reflexivity|reflexivity|exact Hcur|cbn; rewrite upd_same; reflexivity|reflexivity|reflexivity|cbn; apply app_nil_r|cbn; rewrite Hph; split; discriminate|reflexivity]).
         -- destruct (lapply (tov x, tdel x) (LPut k v)) as [ov dl] eqn:El.
@@ -523,6 +531,10 @@ Proof.
         -- destruct (lapply (tov x, tdel x) (LDel k)) as [ov dl] eqn:El.
            eapply (DA_write c i _ x _ (LDel k) pend); [reflexivity|reflexivity|exact Hcur|cbn; rewrite upd_same; reflexivity|exact Hph|reflexivity|cbn [tov tdel]; symmetry; exact El|reflexivity|reflexivity|discriminate].
         -- eapply DA_keep; [reflexivity|reflexivity|exact Hcur|cbn; rewrite upd_same; reflexivity|reflexivity|reflexivity|cbn; apply app_nil_r|cbn; rewrite Hph; split; discriminate|reflexivity].
+        -- set (hit := Bool.eqb (match (match lookup (tov x) k with Some _ => Some true | None => if memk k (tdel x) then Some false else None end) with
+                                  | Some b => b | None => isSomeZ (store c k) end) want).
+           destruct (lapply (tov x, tdel x) (LPutIf k v want hit)) as [ov dl] eqn:El.
+           eapply (DA_write c i _ x _ (LPutIf k v want hit) pend); [reflexivity|reflexivity|exact Hcur|cbn; rewrite upd_same; reflexivity|exact Hph|reflexivity|cbn [tov tdel]; symmetry; exact El|reflexivity|reflexivity|discriminate].
     + destruct (tdel x) eqn:Hd.
       * keep Hcur. cbn. rewrite Hph. split; discriminate.
       * eapply (DA_del c i _ x); [exact Hcur|cbn; rewrite upd_same; reflexivity|exact Hph|reflexivity|cbn; rewrite Hd; reflexivity|reflexivity|reflexivity|reflexivity|reflexivity|reflexivity].
@@ -534,7 +546,7 @@ Proof.
       * keep Hcur. cbn. rewrite Hph. split; reflexivity.
   - destruct (items (tasks c i)) as [|[cm|b] rest] eqn:Hit.
     + apply DA_out; try reflexivity. exact Hcur.
-    + unfold direct. destruct cm as [k|k v|k d|k|n];
+    + unfold direct. destruct cm as [k|k v|k d|k|n|k v want];
         try (apply DA_out; try reflexivity; cbn; rewrite upd_same; reflexivity);
         (eapply (DA_direct c i _ _ rest); [exact Hcur|cbn; rewrite upd_same; reflexivity|exact Hit|reflexivity|reflexivity|reflexivity]).
     + eapply (DA_begin c i _ _ b rest); [reflexivity|reflexivity|exact Hcur|exact Hit|cbn; rewrite upd_same; reflexivity|reflexivity|reflexivity|reflexivity|reflexivity].
@@ -555,7 +567,7 @@ Fixpoint committed (k : nat) (log : list (nat * nat * wkind * list lcmd)) : Z :=
   | _ :: r => committed k r
   end.
 Lemma incsum_app k a b : incsum k (a ++ b) = incsum k a + incsum k b.
-Proof. induction a as [|[| |] a IH]; cbn; try assumption; lia. Qed.
+Proof. induction a as [|[| | |] a IH]; cbn; try assumption; lia. Qed.
 Lemma committed_app k a b : committed k (a ++ b) = committed k a + committed k b.
 Proof. induction a as [|[[[? ?] []] ?] a IH]; cbn; try assumption; lia. Qed.
 
@@ -636,7 +648,7 @@ Proof.
   - (* direct write: not on k *)
     destruct (W i) as [Wi _]. rewrite Hit in Wi. inversion Wi as [|? ? Hwi _]. cbn in Hwi. specialize (Hwi Hwr).
     assert (Sk : store c' k = store c k).
-    { rewrite Hs. destruct cm; cbn in *; try discriminate; unfold upd; destruct (Nat.eqb_spec k k0); congruence. }
+    { rewrite Hs. destruct cm; cbn in *; try discriminate; try (destruct (Bool.eqb _ _); [|reflexivity]); unfold upd; destruct (Nat.eqb_spec k k0); congruence. }
     unfold CI. rewrite Sk, Hw, committed_app. cbn. repeat split; [lia| | |]; intros j y; intros; (destruct (Nat.eq_dec j i) as [->|Hne]; [congruence|eauto]).
   - (* a write command of a body *)
     pose proof (TA _ _ Hc) as (_ & T2 & _ & _ & T5 & T6). rewrite Hph in T6. unfold pending in T2. rewrite Hph in T2. specialize (T2 T6).
@@ -650,7 +662,7 @@ Proof.
     destruct (Nat.eq_dec (lkey l) k) as [Hk|Hk].
     + (* on k: it is an increment *)
       assert (Hck : cmd_key (lkind l) = k) by (destruct l; exact Hk). destruct (Wb Hck) as (d & Hd).
-      destruct l as [k0 v|k0 d0 base|k0]; try discriminate. cbn in Hd. injection Hd as -> ->.
+      destruct l as [k0 v|k0 d0 base|k0|k0 v w hit]; try discriminate. cbn in Hd. injection Hd as -> ->.
       specialize (Hbase _ _ _ eq_refl). pose proof (C3 _ _ Hc) as Hnd. rewrite Hnd in Hbase. cbn in Hbase.
       cbn in Hl. injection Hl as Ho' Hd'.
       repeat split.
@@ -666,15 +678,17 @@ Proof.
         rewrite Ho', lookup_put, Nat.eqb_refl in Hv. discriminate.
     + (* on another key *)
       assert (Elk : lookup (tov x') k = lookup (tov x) k).
-      { destruct l as [k0 v|k0 d0 base|k0]; cbn in Hl, Hk; injection Hl as -> _; rewrite ?lookup_put, ?lookup_remove;
-          destruct (Nat.eqb_spec k k0); congruence. }
+      { destruct l as [k0 v|k0 d0 base|k0|k0 v w [|]]; cbn in Hl, Hk; injection Hl as -> _; rewrite ?lookup_put, ?lookup_remove;
+          try reflexivity; destruct (Nat.eqb_spec k k0); congruence. }
       assert (Edl : memk k (tdel x') = memk k (tdel x)).
-      { destruct l as [k0 v|k0 d0 base|k0]; cbn in Hl, Hk; injection Hl as _ ->; rewrite ?memk_remk.
+      { destruct l as [k0 v|k0 d0 base|k0|k0 v w [|]]; cbn in Hl, Hk; injection Hl as _ ->; rewrite ?memk_remk.
         - destruct (Nat.eqb_spec k k0); [congruence|]. apply andb_true_r.
         - destruct (Nat.eqb_spec k k0); [congruence|]. apply andb_true_r.
-        - destruct (memk k0 (tdel x)); [reflexivity|]. cbn. destruct (Nat.eqb_spec k k0); [congruence|reflexivity]. }
+        - destruct (memk k0 (tdel x)); [reflexivity|]. cbn. destruct (Nat.eqb_spec k k0); [congruence|reflexivity].
+        - destruct (Nat.eqb_spec k k0); [congruence|]. apply andb_true_r.
+        - reflexivity. }
       assert (Ein : incsum k (texec x') = incsum k (texec x)).
-      { rewrite He, incsum_app. destruct l as [k0 v|k0 d0 base|k0]; cbn in *; try lia. destruct (Nat.eqb_spec k0 k); [congruence|lia]. }
+      { rewrite He, incsum_app. destruct l as [k0 v|k0 d0 base|k0|k0 v w hit]; cbn in *; try lia. destruct (Nat.eqb_spec k0 k); [congruence|lia]. }
       repeat split.
       * intros j y v Hy Hv. destruct (Nat.eq_dec j i) as [->|Hne]; [|eauto]. rewrite Hc' in Hy. injection Hy as <-. rewrite Elk in Hv. rewrite Ein. eauto.
       * intros j y Hy. destruct (Nat.eq_dec j i) as [->|Hne]; [|eauto]. rewrite Hc' in Hy. injection Hy as <-. rewrite Edl. eauto.
